@@ -95,6 +95,7 @@ func ExploreFrom(root []int, body func(), check Check, b Bounds) (*Stats, *Viola
 	stack := [][]int{append([]int(nil), root...)}
 	opt := Options{Horizon: b.Horizon, Keys: b.Prune}
 	type budget struct{ p, d int }
+	const maxVisited = 3000000 // bounds the memory of the pruning table (roughly 300 MB)
 	visited := map[[2]uint64][]budget{}
 	for len(stack) > 0 {
 		if b.MaxExecs > 0 && st.Execs >= int64(b.MaxExecs) {
@@ -162,7 +163,10 @@ func ExploreFrom(root []int, body func(), check Check, b Bounds) (*Stats, *Viola
 					st.Pruned += int64(len(x.Choices) - i)
 					break
 				}
-				visited[x.Keys[i]] = append(visited[x.Keys[i]], rem)
+				if len(visited) < maxVisited {
+					// (a full table only means less pruning from here on)
+					visited[x.Keys[i]] = append(visited[x.Keys[i]], rem)
+				}
 			}
 			st.Nodes++
 			np, nd := cp, cd
